@@ -232,9 +232,42 @@ def _walk_chunk(args):
                 for m in mm:
                     m.update({"pre": state, "op": e["op"], "enc": "walk", "history": list(hist)})
                 res.extend(mm)
-                break  # the object may be inconsistent: the rest of the walk is tainted
+                # the object left the model: the rest of the walk cannot be compared with it any more, but the
+                # structural rules (C07) are stated on the XML alone and must keep holding whatever happens next
+                res.extend(_detached_tail(table, rng, depth, state, hist))
+                break
             state = e["post"]
     return steps, res
+
+
+def _detached_tail(table, rng, depth, state, hist) -> list:
+    from .table_driver import rand_op
+
+    for _ in range(depth):
+        try:
+            proj = tl.xml_project(table.serialize())
+        except Exception:  # noqa: BLE001 - unparsable XML was already reported as xml mismatch
+            return []
+        cur = {"rows": proj["rows"], "cols": proj["cols"]}
+        o = rand_op(rng, cur)
+        if o["op"] in ("csv", "optimize_width"):
+            continue
+        try:
+            tl.live_reads(table, [r for r in tl.READ_KINDS if rng.random() < 0.35])
+            tl.apply_op(table, o, rng, "rand")
+            after = tl.xml_project(table.serialize())
+            size = (table.width, table.height)
+        except Exception:  # noqa: BLE001 - a call may fail on an object that is already wrong
+            return []
+        bad = list(after["bad"])
+        if any(len(r) > len(after["cols"]) for r in after["rows"]):
+            bad.append("row-wider-than-columns")
+        if size != (len(after["cols"]), len(after["rows"])):
+            bad.append(f"reported-size-{size}-differs-from-xml-{(len(after['cols']), len(after['rows']))}")
+        if bad:
+            return [{"kind": "struct", "got": sorted(set(bad)), "want": [], "pre": state, "op": o, "enc": "walk-after-divergence",
+                     "history": list(hist) + [{"then": o}]}]
+    return []
 
 
 def walks(edges, reads, nwalks=200, depth=8, seed=0, procs=None):
@@ -253,6 +286,77 @@ def walks(edges, reads, nwalks=200, depth=8, seed=0, procs=None):
     with mp.get_context("fork").Pool(procs) as pool:
         for n, res in pool.imap_unordered(_walk_chunk, jobs):
             total += n
+            mism.extend(res)
+    return total, mism
+
+
+def _blind_chunk(args):
+    from .table_driver import rand_op, rand_state
+
+    seed0, n, steps = args
+    out = []
+    done = 0
+    for i in range(n):
+        rng = random.Random(seed0 * 104729 + i)
+        state = rand_state(rng)
+        table = tl.build_table(state, rng.choice(("max", "rand")), rng)
+        hist = [{"start": state}]
+        for _ in range(steps):
+            try:
+                proj = tl.xml_project(table.serialize())
+            except Exception:  # noqa: BLE001
+                break
+            cur = {"rows": proj["rows"], "cols": proj["cols"]}
+            h, w = len(cur["rows"]), len(cur["cols"])
+            if rng.random() < 0.45 and h and w:
+                # ONE read that leaves a row / cell object in the caches, nothing else is looked at
+                x, y = rng.randrange(w), rng.randrange(h)
+                how = rng.choice(("get_value", "get_cell", "get_row", "get_column"))
+                hist.append({"read": how, "x": x, "y": y})
+                try:
+                    if how == "get_value":
+                        table.get_value((x, y))
+                    elif how == "get_cell":
+                        table.get_cell((x, y))
+                    elif how == "get_row":
+                        table.get_row(y)
+                    else:
+                        table.get_column(x)
+                except Exception:  # noqa: BLE001 - judged by the other checks
+                    break
+                continue
+            o = rand_op(rng, cur)
+            if o["op"] in ("csv", "optimize_width", "clear", "transpose"):
+                continue
+            hist.append({"op": o})
+            try:
+                tl.apply_op(table, o, rng, "rand")
+                after = tl.xml_project(table.serialize())
+                size = (table.width, table.height)
+            except Exception:  # noqa: BLE001 - an exception is C01's business; the history stops
+                break
+            done += 1
+            bad = list(after["bad"])
+            if any(len(r) > len(after["cols"]) for r in after["rows"]):
+                bad.append("row-wider-than-columns")
+            if size != (len(after["cols"]), len(after["rows"])):
+                bad.append("reported-size-differs-from-the-sum-of-repeats")
+            if bad:
+                out.append({"kind": "struct", "got": sorted(set(bad)), "want": [], "pre": cur, "op": o, "enc": "blind-history", "history": list(hist)})
+                break
+    return done, out
+
+
+def blind_struct_histories(n=400, steps=14, seed=0, procs=None):
+    """Histories in which nothing is read back between the operations except single cache-filling reads; the
+    structural rules (stated on the XML alone) and the reported size are evaluated after every operation."""
+    procs = procs or min(16, os.cpu_count() or 4)
+    per = max(1, n // (procs * 2))
+    jobs = [(seed * 1000 + i, per, steps) for i in range(0, n, per)]
+    total, mism = 0, []
+    with mp.get_context("fork").Pool(procs) as pool:
+        for d, res in pool.imap_unordered(_blind_chunk, jobs):
+            total += d
             mism.extend(res)
     return total, mism
 
